@@ -62,3 +62,25 @@ func refCall(q map[string]string) (string, string) {
 	}
 	return r.Value, r.Err
 }
+
+// refCallRaw sends a pre-encoded request
+func refCallRaw(b []byte) (string, string) {
+	if err := refStart(); err != nil {
+		return "", "cannot start refhelper: " + err.Error()
+	}
+	if _, err := refIn.Write(append(b, '\n')); err != nil {
+		return "", err.Error()
+	}
+	line, err := refOut.ReadBytes('\n')
+	if err != nil {
+		return "", "refhelper died: " + err.Error()
+	}
+	var r struct {
+		Value string `json:"value"`
+		Err   string `json:"err"`
+	}
+	if err := json.Unmarshal(line, &r); err != nil {
+		return "", err.Error()
+	}
+	return r.Value, r.Err
+}
